@@ -237,7 +237,9 @@ func (s *DateYearShard) EqualStart(key interface{}, index int) bool {
 		return false
 	}
 
-	return numYear == index
+	// only the first instant of the period is its start: every later key of the period has
+	// rows of the same table below it
+	return numYear == index && isStartOfDatePeriod(key, "year")
 }
 
 type DateMonthShard struct {
@@ -298,7 +300,9 @@ func (s *DateMonthShard) EqualStart(key interface{}, index int) bool {
 		return false
 	}
 
-	return numYear == index
+	// only the first instant of the period is its start: every later key of the period has
+	// rows of the same table below it
+	return numYear == index && isStartOfDatePeriod(key, "month")
 }
 
 type DateDayShard struct {
@@ -359,7 +363,59 @@ func (s *DateDayShard) EqualStart(key interface{}, index int) bool {
 		return false
 	}
 
-	return numYear == index
+	// only the first instant of the period is its start: every later key of the period has
+	// rows of the same table below it
+	return numYear == index && isStartOfDatePeriod(key, "day")
+}
+
+// isStartOfDatePeriod tells whether a date key (YYYY-MM-DD, YYYY-MM-DD HH:MM:SS or a unix timestamp) is
+// the first instant of its year, month or day. Anything it cannot read is not a start, which only
+// keeps one more table in the route.
+func isStartOfDatePeriod(key interface{}, period string) bool {
+	var month, day, hour, minute, second int
+	switch val := key.(type) {
+	case int:
+		return isStartOfDatePeriod(int64(val), period)
+	case uint64:
+		return isStartOfDatePeriod(int64(val), period)
+	case int64:
+		tm := time.Unix(val, 0)
+		month, day, hour, minute, second = int(tm.Month()), tm.Day(), tm.Hour(), tm.Minute(), tm.Second()
+	case string:
+		if len(val) != len("2006-01-02") && len(val) != len("2006-01-02 15:04:05") {
+			return false
+		}
+		var err error
+		if month, err = strconv.Atoi(val[5:7]); err != nil {
+			return false
+		}
+		if day, err = strconv.Atoi(val[8:10]); err != nil {
+			return false
+		}
+		if len(val) > 10 {
+			if hour, err = strconv.Atoi(val[11:13]); err != nil {
+				return false
+			}
+			if minute, err = strconv.Atoi(val[14:16]); err != nil {
+				return false
+			}
+			if second, err = strconv.Atoi(val[17:19]); err != nil {
+				return false
+			}
+		}
+	default:
+		return false
+	}
+	if hour != 0 || minute != 0 || second != 0 {
+		return false
+	}
+	switch period {
+	case "year":
+		return month == 1 && day == 1
+	case "month":
+		return day == 1
+	}
+	return true
 }
 
 type DefaultShard struct {
